@@ -3,6 +3,7 @@ package main
 import (
 	"bytes"
 	"fmt"
+	"strings"
 )
 
 // C09: one family per input: golden = whole-buffer delivery; variants = other delivery schedules of the same bytes.
@@ -64,9 +65,21 @@ func c09Drive(args []string) int {
 					splits = append(splits, b)
 				}
 			}
+			if strings.HasPrefix(it.Name, "gen/") {
+				// the generated inputs exist to straddle the readers' buffers: a dense sweep of first-chunk sizes,
+				// and chunk sizes that make every refill end at a different offset inside a line
+				for k := 7; k < len(in) && k < 14000; k += 23 {
+					splits = append(splits, k)
+				}
+			}
 		}
 		for _, k := range splits {
 			emitVariant(fmt.Sprintf("split@%d", k), &chunkReader{data: in, sizes: []int{k, len(in)}, failAt: -1}, k)
+		}
+		if strings.HasPrefix(it.Name, "gen/") {
+			for _, cs := range []int{509, 997, 1021, 2039, 3001, 4093, 4099} {
+				emitVariant(fmt.Sprintf("fixed-chunks-%d", cs), &chunkReader{data: in, sizes: []int{cs}, failAt: -1}, -1)
+			}
 		}
 		for k := 0; k < nRandom; k++ {
 			var sizes []int
